@@ -29,7 +29,7 @@ func init() {
 					"After EVERY operation: depth of the deepest node (full traversal through Root/Left/Right for trees <= 300 keys; for larger trees the depth of the key just inserted, via Cursor(k)+Up, plus a full traversal every 64 steps and at the end) against the real-valued bound with P tracked by the monitor; comparator calls made by Get for present and absent keys against floor(bound)+1. " +
 					"Bulk New with n distinct (and duplicated) keys: height == floor(log2 n) for every beta including 1000. beta: quick {0,1,2,50,100,250,300,500,700,750,900,999} + a rotating extra; thorough sweeps all 0..999. " +
 					"distinct = hash(beta, pattern, ops); non-trivial = at some step the deepest key was within one level of log_b(P) (depth >= bound-2; on the unchanged tree the code keeps depth <= log_b(P), one level inside the stated bound)",
-				Required:     []string{"near_limit_steps", "histories_inserting_through_replace", "long_monotone_runs", "clones", "clone_worker_rounds", "steps", "get_comparison_checks", "new_height_checks", "after_remove_checks", "regrow_after_empty", "deep_remnant_histories", "touches_of_present_keys", "extremal_spine_histories"},
+				Required:     []string{"near_limit_steps", "histories_inserting_through_replace", "long_monotone_runs", "clones", "clone_worker_rounds", "steps", "get_comparison_checks", "new_height_checks", "after_remove_checks", "regrow_after_empty", "deep_remnant_histories", "touches_of_present_keys", "extremal_spine_histories", "concurrent_constructor_rounds"},
 				Assumptions:  []string{"depth is read through stree.Cursor (Root/Left/Right/Up), which C03 checks separately", "the bound is evaluated in float64 with an epsilon of 1e-9 in the code's favour"},
 				CoverPkgs:    []string{"github.com/creachadair/mds/stree"},
 				CoverAnchors: []string{"stree/stree.go:limitFunc", "stree/stree.go:toFraction", "stree/stree.go:insert", "stree/stree.go:Add", "stree/stree.go:Replace", "stree/stree.go:Remove", "stree/stree.go:incSize", "stree/node.go:rewrite", "stree/node.go:vineToTree", "stree/node.go:treeToVine", "stree/node.go:rotateLeft", "stree/node.go:extract", "stree/stree.go:New"},
@@ -330,6 +330,15 @@ func runC02(c *fw.Ctx) {
 			c.Fail(map[string]any{"phase": "8 goroutines, each working on its own Clone of one prototype tree", "beta": beta}, "%s", msg)
 		}
 		c.Add("clone_worker_rounds", 1)
+	}
+	for k := 0; k < c.Pick(2, 10); k++ {
+		if !c.Begin(1<<22 + 200 + k) {
+			continue
+		}
+		if msg := c02concurrentNew(c.Rng().Uint64(), c.Step); msg != "" {
+			c.Fail(map[string]any{"phase": "8 goroutines constructing private trees with different balance factors at the same time"}, "%s", msg)
+		}
+		c.Add("concurrent_constructor_rounds", 1)
 	}
 	if c.Flavour == "race" {
 		return
@@ -763,4 +772,38 @@ func c02spine(h *c02hist, variant, target int) {
 		h.checkDepth(d, "full traversal after the extremal construction")
 	}
 	h.c.Add("extremal_spine_histories", 1)
+}
+
+// c02concurrentNew: eight goroutines construct private trees at the same
+// time, each goroutine alternating between very different balance factors;
+// every tree gets sorted insertions and must respect the bound of its own
+// balance factor after every one of them. Nothing is shared between the
+// goroutines except whatever the package itself shares between trees.
+func c02concurrentNew(seed uint64, step func()) string {
+	return concurrently(8, seed, func(g int, r *rand.Rand) string {
+		betas := [][]int{{999, 0}, {0, 999}, {900, 100}, {250, 990}, {0, 500}, {999, 1}, {750, 0}, {100, 950}}[g]
+		for it := 0; it < 400; it++ {
+			beta := betas[it%2]
+			t := stree.New(beta, cmpElem)
+			n := 16 + r.IntN(40)
+			for i := 1; i <= n; i++ {
+				k := i
+				if it%3 == 1 {
+					k = -i
+				}
+				t.Add(Elem{Key: k, Tag: i})
+				cu := t.Cursor(Elem{Key: k})
+				d := -1
+				for cu.Valid() {
+					d++
+					cu.Up()
+				}
+				if b := c02bound(beta, i); float64(d) > b {
+					return fmt.Sprintf("goroutine %d: tree built with New(%d) while other goroutines build trees with other balance factors: after %d sorted insertions the last key lies at depth %d, bound %.3f", g, beta, i, d, b)
+				}
+			}
+			step()
+		}
+		return ""
+	})
 }
